@@ -444,7 +444,8 @@ impl<'a> ListStylist<'a> {
                             };
                             inner += body + follow + ln;
                         }
-                        Item::Linebreak(n) => inner += arena.line().repeat_n(n),
+                        // Kept blank lines only exist when the list is broken.
+                        Item::Linebreak(n) => inner += arena.line_().repeat_n(n),
                     }
                 }
                 if !sty.no_indent {
